@@ -13,21 +13,15 @@ import (
 )
 
 func main() {
-	p := progen.Dataflow(progen.DataflowParams{Kind: "arr", Src: "gen", Size: 2, Cons: "sums", Extra: "chain"})
-	ref, _ := progen.Interpret(p)
+	p := progen.Dataflow(progen.DataflowParams{Kind: "int", Src: "gen", Size: 2, Cons: "add"})
 	t0 := time.Now()
-	opts := psx.BOptions{KeepDir: true, JobMode: os.Args[1], MaxJobs: 2}
-	r := psx.RunB(p, opts)
-	res := psx.AsResult(p, r)
-	fmt.Printf("exit=%d wall=%v obs=%d state=%s\n", r.Exit, time.Since(t0), len(r.Obs), res.State)
-	for _, v := range psx.CheckDataflow(ref, res) {
-		fmt.Println("  DF:", v)
+	slowJob := "ID." + psx.Psid + ".TOP.GEN.fork0.chnk0.main"
+	r := psx.RunB(p, psx.BOptions{JobMode: "fake_remote", FlakyQueue: true, AutoRetry: 1, Slow: map[string]int{slowJob: 9000}, Timeout: 150 * time.Second, KeepDir: true})
+	fmt.Printf("exit=%d wall=%v obs=%d err=%s\n", r.Exit, time.Since(t0), len(r.Obs), r.Err)
+	for _, o := range r.Obs {
+		fmt.Println("  ", o.Key, o.How)
 	}
-	for _, v := range psx.CheckExactlyOnce(ref, res) {
-		fmt.Println("  X1:", v)
-	}
-	if r.Exit != 0 || os.Getenv("SHOW") != "" {
-		fmt.Println(psx.ConsoleTail(r.Console, 25))
-	}
-	r.Cleanup()
+	fmt.Println(psx.ConsoleTail(r.Console, 30))
+	b, _ := os.ReadFile(r.Dir + "/ctl/qcount")
+	fmt.Println("qcount:", string(b))
 }
